@@ -382,11 +382,13 @@ private:
   }
 
   epoch_t update_global_epoch(epoch_t curr_epoch, epoch_t new_epoch) {
-    if (global_epoch.load(std::memory_order_relaxed) == curr_epoch) {
-      // (6) - due to the load operations in scan, this acquire-fence synchronizes-with the release-store (4)
-      //       and the seq-cst fence (3)
-      XENIUM_THREAD_FENCE(std::memory_order_acquire);
+    // (6) - due to the load operations in scan, this acquire-fence synchronizes-with the release-store (4)
+    //       and the seq-cst fence (3)
+    // The fence is required even if some other thread has already updated the global epoch, because the
+    // caller reclaims nodes based on its own scan in either case.
+    XENIUM_THREAD_FENCE(std::memory_order_acquire);
 
+    if (global_epoch.load(std::memory_order_relaxed) == curr_epoch) {
       // The orphans of the slot that is about to become current have to be taken _before_ the new epoch is
       // published. As long as the global epoch is still curr_epoch this slot only contains nodes that were retired
       // at least two epochs ago; once the new epoch is visible, other threads may already abandon nodes that were
